@@ -124,6 +124,22 @@ def _run_cloud(rec, dreye, name, P, family, tier, seed, uniform=True):
             if bad:
                 _v(rec, bad[0], dict(sig, what=bad[1][:40]), bad[1], case, observed=np.asarray(X)[:3],
                    script="import numpy as np, dreye\nprint(dreye.sample_in_hull(np.array(%r), %d, seed=%d, engine=%r))\n" % (P.tolist(), n_, sd, engine))
+    # ---- integer-typed clouds (lattice points given as int arrays): the same samples as for the same values as floats
+    if np.all(P == np.round(P)):
+        for engine in (None, "Halton"):
+            rec.path()
+            rec.trans(2)
+            sig = dict(family=family, api="dreye.sample_in_hull", engine=str(engine), l1="none")
+            try:
+                Xi = np.asarray(dreye.sample_in_hull(P.astype(np.int64), 64, seed=5, engine=engine), dtype=float)
+                Xf = np.asarray(dreye.sample_in_hull(P.astype(float), 64, seed=5, engine=engine), dtype=float)
+                same = Xi.shape == Xf.shape and bool(np.array_equal(Xi, Xf))
+            except Exception as e:  # noqa
+                same = False
+            rec.outcome("int-typed-cloud/%s" % ("same" if same else "differs"))
+            if not same:
+                _v(rec, "b", dict(sig, what="int-typed cloud"), "samples of an integer-typed cloud differ from those of the same cloud given as floats", dict(cloud=name, engine=engine, dtype="int"),
+                   script="import numpy as np, dreye\nP = np.array(%r)\nprint(dreye.sample_in_hull(P, 8, seed=5), dreye.sample_in_hull(P.astype(float), 8, seed=5))\n" % (P.astype(np.int64).tolist(),))
     # ---- engine given as a QMCEngine instance / seed given as a Generator (both documented)
     from scipy.stats import qmc
 
